@@ -1,5 +1,5 @@
 (* KTactics.v — definitions and tactics the generated kernel obligations (gen/ob/*.v) are stated and closed with. *)
-From Coq Require Import Reals List Lra ZArith Bool.
+From Coq Require Import Reals List Lra ZArith Bool Psatz.
 From Coquelicot Require Import Coquelicot.
 From Interval Require Import Tactic.
 From Yad Require Import Expr.
@@ -86,6 +86,28 @@ Ltac k_derive_exact sp Hsp le se :=
       repeat match goal with |- context [ln ?t] => progress ring_simplify t end;
       unfold Rminus, Rdiv; field; repeat split; lra ]
   end.
+
+(* closures over instance state (tools/pyinst.py): args[0] = l in (0,1) (lambda = 1/(1+m2/Q2) of the heavy CC channels);
+   the only dilogarithm is Li2(1 - (1-x) l/(1 - x l)) of r_integral *)
+Ltac k_derive_inst sp Hsp le se l x Hl Hx :=
+  cbn [eval le se cst_val nth];
+  let inst := fresh "inst" in
+  pose (inst := Build_UnaryDiff' (sp_li2 sp) (fun u => - ln (Rabs (1 - u)) / u) (fun u => u <> 0 /\ u <> 1)
+                                 (fun u H => li2_derive sp Hsp u (proj1 H) (proj2 H)));
+  let Hlx := fresh "Hlx" in let Hlx' := fresh "Hlx'" in let Hw := fresh "Hw" in
+  assert (Hlx : 0 < 1 + - (x * l)) by nra;
+  assert (Hlx' : 0 < 1 + - (l * x)) by nra;
+  assert (Hw : 0 < (1 + - x) * l * / (1 + - (x * l)) < 1)
+    by (split; [ apply Rmult_lt_0_compat; [nra | apply Rinv_0_lt_compat; exact Hlx]
+               | apply Rmult_lt_reg_r with (1 + - (x * l)); [exact Hlx|]; rewrite Rmult_assoc, Rinv_l by lra; nra ]);
+  auto_derive;
+  [ repeat split; try lra; try (apply Rmult_integral_contrapositive_currified; lra)
+  | try (replace (1 - (1 + - ((1 + - x) * l * / (1 + - (x * l))))) with ((1 + - x) * l * / (1 + - (x * l))) by ring;
+         rewrite (Rabs_pos_eq _ (Rlt_le _ _ (proj1 Hw)));
+         (rewrite ln_mult; [| apply Rmult_lt_0_compat; lra | apply Rinv_0_lt_compat; lra]);
+         rewrite ln_mult by lra; rewrite ln_Rinv by lra);
+    replace (1 - l * x) with (1 + - (x * l)) by ring; replace (1 - x) with (1 + - x) by ring;
+    unfold Rminus, Rdiv; field; repeat split; try lra ].
 
 (* ---------------------------------------------------------------- first moments (C04) *)
 Ltac m_split re := cbn [eval re cst_val nth]; unfold Rminus, Rdiv; field.
